@@ -23,16 +23,186 @@ ASSUMPTIONS = list(c11.ASSUMPTIONS) + [
 ]
 
 # ------------------------------------------------------------------ send_packet: wire format
+U32 = 2 ** 32
+
+
+def encrypt_packet_stub(cx):
+    """Encryption.encrypt_packet(seq, hdr, packet) -> (bytes, bytes) (the four implementations are under contract
+    below); the ghost event also records the live value of _send_seq at the moment of the call"""
+    r = cx.fresh('tuple[bytes,bytes]', 'encrypted')
+    return [Out(ret=r, event=('encrypt_packet', tuple(cx.args) + (cx.selff('_send_seq'),)))]
+
+
+encrypt_packet_stub.modifies = ()
+
+
+def wire_stub(cx):
+    """self._send(data): the bytes leave; the ghost event records the live value of _send_seq at that moment"""
+    return [Out(ret=VNone, event=('wire', tuple(cx.args) + (cx.selff('_send_seq'),)))]
+
+
+wire_stub.modifies = ()
+
+
+def emission_seq(c):
+    """the value of the connection's send counter when this packet was put on the wire"""
+    w = c.events('wire')
+    return w[0][1][-1].z if w else None
+
+
+def mac_over_current_seq(c):
+    """RFC 4253 6.4: the sequence number bound into the MAC / AEAD nonce of a packet is the sender's counter for THIS
+    packet: the value _send_seq holds when the packet is emitted (before this packet's own increment)"""
+    encs = c.events('encrypt_packet')
+    if not encs:
+        return z3.BoolVal(True)
+    a = encs[0][1]
+    live = a[-1].z
+    return z3.And(z3.BoolVal(len(encs) == 1), a[0].z == live, live >= 0, live < U32,
+                  # ... and the counter did not move between computing the tag and emitting the packet
+                  emission_seq(c) == live)
+
+
+def seq_rule(c):
+    """every emitted packet - encrypted or not - advances the counter by exactly one mod 2^32; the one exception is
+    RFC-extension strict kex (the Terrapin counter-measure): NEWKEYS resets it to 0, also at the FIRST key exchange,
+    when NEWKEYS itself still goes out unencrypted"""
+    if not c11.own_sends(c):
+        return c.new('_send_seq') == c.old('_send_seq') if not (
+            c.events('send_kexinit') or c.events('nested_send') or c.events('nested_send_started_kex')) \
+            else z3.BoolVal(True)
+    base = emission_seq(c)
+    conj = [z3.BoolVal(len(c.events('wire')) == 1),
+            c.new('_send_seq') == z3.If(z3.And(c.arg('pkttype') == 21, c.old('_strict_kex')), 0, (base + 1) % U32)]
+    if not (c.events('send_kexinit') or c.events('nested_send') or c.events('nested_send_started_kex')):
+        # nothing else was emitted by this activation: the number used is the counter's value on entry
+        conj.append(base == c.old('_send_seq'))
+    return z3.And(conj)
+
+
 send_packet = c11._mk_send_packet(
     'C02',
-    ensures=[('rfc4253-binary-packet', c11.wire_format), ('mac-over-pre-increment-seq', c11.mac_seq),
-             ('seq-rule', c11.seq_rule)],
+    ensures=[('rfc4253-binary-packet', c11.wire_format), ('mac-over-pre-increment-seq', mac_over_current_seq),
+             ('seq-rule', seq_rule)],
     always=[])
 send_packet.stubs['self.send_packet'] = c11._recursive_stub
+send_packet.stubs['self._send_encryption.encrypt_packet'] = encrypt_packet_stub
+send_packet.stubs['self._send'] = wire_stub
+
+
+# ------------------------------------------------------------------ encryption.py: encrypt_packet (sending side)
+# What the sender authenticates, per suite, against the RFCs (not against decrypt_packet - a symmetric slip in
+# both directions must still disagree with these):
+#   BasicEncryption  RFC 4253 6.4: mac = MAC(key, sequence_number || unencrypted_packet), unencrypted_packet being the
+#                    whole packet (length field, padding length, payload, padding); wire = ENC(unencrypted_packet)
+#   ETMEncryption    OpenSSH PROTOCOL 1.6 (*-etm@openssh.com): length field in clear, wire = length || ENC(rest),
+#                    mac = MAC(key, sequence_number || length || ENC(rest)) - computed over the CIPHERTEXT
+#   GCMEncryption    RFC 5647 7.2: AAD = length field, plaintext = rest, no sequence number (the IV counter)
+#   ChachaEncryption OpenSSH PROTOCOL.chacha20poly1305: nonce = UInt64(sequence_number), header and rest sealed
+# Primitives are uninterpreted: cipher.encrypt = enc_f(data), MAC.sign = a fresh value logged with its arguments
+# (its own contract - mac over UInt32(seq) || data resp. UMAC nonce - is proved on mac.py under C01).
+enc_f = z3.Function('cipher_encrypt', BytesS, BytesS)
+
+
+def cipher_encrypt_stub(cx):
+    return [Out(ret=VBytes(enc_f(cx.args[0].z)), event=('encrypt', tuple(cx.args)))]
+
+
+cipher_encrypt_stub.modifies = ()
+
+
+def mac_sign_stub(cx):
+    return [Out(ret=cx.fresh('bytes', 'mac_tag'), event=('sign', tuple(cx.args)))]
+
+
+mac_sign_stub.modifies = ()
+
+
+def aead_seal_stub(cx):
+    return [Out(ret=cx.fresh('tuple[bytes,bytes]', 'sealed'), event=('seal', tuple(cx.args)))]
+
+
+aead_seal_stub.modifies = ()
+
+ENCP_CLASSES = {'BasicEncryption': {'_cipher': 'obj:Cipher', '_mac': 'obj:MAC'},
+                'ETMEncryption': {'_cipher': 'obj:Cipher', '_mac': 'obj:MAC'},
+                'GCMEncryption': {'_cipher': 'obj:Cipher'}, 'ChachaEncryption': {'_cipher': 'obj:Cipher'},
+                'Cipher': {}, 'MAC': {}}
+ENCP_PARAMS = dict(seq='int', header='bytes', packet='bytes')
+
+
+def _one(c, name):
+    e = c.events(name)
+    return e[0][1] if len(e) == 1 else None
+
+
+def basic_encrypt_post(c):
+    """MAC-then-encrypt: tag over (seq, length || packet) in clear; the wire carries ENC(length || packet)"""
+    s, e = _one(c, 'sign'), _one(c, 'encrypt')
+    if s is None or e is None:
+        return z3.BoolVal(False)
+    whole = z3.Concat(c.arg('header'), c.arg('packet'))
+    r = c.result_v
+    return z3.And(s[0].z == c.arg('seq'), s[1].z == whole, e[0].z == whole,
+                  r.items[0].z == enc_f(whole), r.items[1].z == c.calls('sign')[0]['ret'].z)
+
+
+def etm_encrypt_post(c):
+    """encrypt-then-MAC: only the body is encrypted, the tag is over (seq, length || ENC(body)), i.e. over exactly
+    the bytes that go on the wire, and it is computed after the encryption"""
+    s, e = _one(c, 'sign'), _one(c, 'encrypt')
+    if s is None or e is None:
+        return z3.BoolVal(False)
+    wire = z3.Concat(c.arg('header'), enc_f(c.arg('packet')))
+    keys = [x['key'].rsplit('.', 1)[-1] for x in c.calls()]
+    r = c.result_v
+    return z3.And(e[0].z == c.arg('packet'), s[0].z == c.arg('seq'), s[1].z == wire,
+                  z3.BoolVal(keys.index('encrypt') < keys.index('sign')),
+                  r.items[0].z == wire, r.items[1].z == c.calls('sign')[0]['ret'].z)
+
+
+def gcm_encrypt_post(c):
+    a = _one(c, 'seal')
+    if a is None or len(a) != 2:
+        return z3.BoolVal(False)
+    return z3.And(a[0].z == c.arg('header'), a[1].z == c.arg('packet'),
+                  c.eq(c.result_v, c.calls('encrypt_and_sign')[0]['ret']))
+
+
+def chacha_encrypt_post(c):
+    a = _one(c, 'seal')
+    if a is None or len(a) != 3:
+        return z3.BoolVal(False)
+    return z3.And(a[0].z == c.arg('header'), a[1].z == c.arg('packet'),
+                  a[2].z == be(z3.IntVal(8), c.arg('seq')),                 # nonce = UInt64(seq)
+                  c.eq(c.result_v, c.calls('encrypt_and_sign')[0]['ret']))
+
+
+def mk_encrypt_packet_specs(prop):
+    """the four encrypt_packet contracts, registered under `prop` (C02: conformance of what is emitted; C01: the
+    sending half of "tamper-evident in both directions")"""
+    seq32 = lambda c: z3.And(c.arg('seq') >= 0, c.arg('seq') < 2 ** 32)        # noqa: E731
+    out = []
+    for cls, post, label, stubs in (
+            ('BasicEncryption', basic_encrypt_post, 'rfc4253-6.4-mac-over-seq-and-unencrypted-packet',
+             {'self._cipher.encrypt': cipher_encrypt_stub, 'self._mac.sign': mac_sign_stub}),
+            ('ETMEncryption', etm_encrypt_post, 'etm-encrypt-then-mac-over-seq-length-and-ciphertext',
+             {'self._cipher.encrypt': cipher_encrypt_stub, 'self._mac.sign': mac_sign_stub}),
+            ('GCMEncryption', gcm_encrypt_post, 'rfc5647-aad-is-the-length-field',
+             {'self._cipher.encrypt_and_sign': aead_seal_stub}),
+            ('ChachaEncryption', chacha_encrypt_post, 'chacha20-poly1305-nonce-is-uint64-seq',
+             {'self._cipher.encrypt_and_sign': aead_seal_stub})):
+        out.append(Spec(prop, 'encryption', f'{cls}.encrypt_packet', self_class=cls, params=ENCP_PARAMS,
+                        classes=ENCP_CLASSES, stubs=stubs, requires=seq32, ensures=[(label, post)],
+                        returns='tuple[bytes,bytes]', raises={}))
+    return out
+
+
+encrypt_packet_specs = mk_encrypt_packet_specs('C02')
 
 
 # ------------------------------------------------------------------ Kex.compute_key
-H = z3.Function('H', BytesS, BytesS)                       # hash of an accumulated byte string
+H = z3.Function('H', BytesS, BytesS)                     # hash of an accumulated byte string
 chain = z3.Function('rfc_chain', BytesS, BytesS, BytesS, BytesS, BytesS, BoolS)
 # chain(k, h, x, sid, key): key == K1 || ... || Kn for some n >= 0 with
 #   K1 = HASH(K || H || X || session_id),  Kn+1 = HASH(K || H || K1 || ... || Kn)          (RFC 4253 7.2)
